@@ -289,7 +289,7 @@ Definition dispatch_sched (f : list N) (a : jv) : option jv :=
              | Some p', Some als', Some o, Some loc' =>
                  let ts := component_times o p' loc' als' in
                  JL [j_sres (fun l => JL (map (j_atime o) l)) ts;
-                     j_sres (fun l => JL (map (fun x => j_time o (at_trigger x)) l)) (active_of o ts)]
+                     j_sres (fun l => JL (map (fun x => j_sres (j_time o) (at_trigger_prop o x)) l)) (active_of o ts)]
              | _, _, _, _ => junsupported
              end
          | _ => junsupported
